@@ -5,7 +5,7 @@ from typing import TYPE_CHECKING
 
 from repid.connections.abc import MessageBrokerT
 from repid.connections.in_memory.consumer import _InMemoryConsumer
-from repid.connections.in_memory.utils import DummyQueue, Message, wait_until
+from repid.connections.in_memory.utils import DummyQueue, Message, hand_back, wait_until
 from repid.logger import logger
 from repid.message import MessageCategory
 
@@ -57,15 +57,8 @@ class InMemoryMessageBroker(MessageBrokerT):
             if msg.key.id_ == key.id_:
                 q.processing.remove(msg)
                 taken_by = q.holders.pop(msg, None)
-                category = getattr(taken_by, "category", MessageCategory.NORMAL)
                 # the message goes back to where it was taken from
-                slot = wait_until(msg.parameters) if category == MessageCategory.DELAYED else None
-                if category == MessageCategory.DEAD:
-                    q.dead.insert(0, msg)
-                elif slot is not None:
-                    q.delayed.setdefault(slot, []).insert(0, msg)
-                else:
-                    q.simple.put_nowait(msg)
+                hand_back(q, msg, getattr(taken_by, "category", MessageCategory.NORMAL))
                 break
 
         await asyncio.sleep(0)
